@@ -156,6 +156,12 @@ E('C19', '486 grammar texts in 16 kinds + every string of length <= 3/4 over 10 
          'of one column (alone, and 16 per document): the bundle succeeds, other columns keep their '
          'values, valid texts equal an independent tokenize/AST reference, invalid ones error in every row.')
 
+H('C16', 'A document with 103 formula columns drawn from a template grammar of the supported reference '
+         'forms (and look-alikes that must not change) x 22 renamed entities x 5/8 rename paths x 5-20 '
+         'targets (thorough: pairs of renames, renames after formula edits): all values unchanged, every '
+         'formula text equals its template rendered with the new ids byte for byte, fresh recompute agrees.',
+  tech='exhaustive enumeration of rename cases over a formula-template grammar on the real engine')
+
 PLANNED = {}
 
 
